@@ -177,3 +177,171 @@ class AddObstruction_c(Contract):
         g.holds('one more obstruction', len(ob) == 1)
         g.eq('first corner stored', S.arr([ob[-1][0][k] for k in range(3)]), S.arr(self.Lc))
         g.eq('second corner stored', S.arr([ob[-1][1][k] for k in range(3)]), S.arr(self.Rc))
+
+
+# ===================================================================================================
+# C16 -- RRT* builds a collision-free, cost-consistent tree and returns a path in it
+# ===================================================================================================
+from pyvc import loops, loader, npx   # noqa: E402
+
+
+class _Tree(Contract):
+    """generalGenerateTree with caller-supplied callbacks (A7: deterministic, fresh parentless node per sample) and
+    the R-tree abstracted by A6 (`nearest(q, k)` returns between 1 and k inserted nodes -- which ones is chosen
+    nondeterministically, every choice is explored).  The rejection loop is cut with the invariant rule, so the
+    number of rejected samples is unbounded; the iteration budget is concrete (shape bound)."""
+    prop = 'C16'
+    target = PP + ':RRTStar.generalGenerateTree'
+    under_contract = (PP + ':RRTStar.findPathGeneral', PP + ':R6Tree.place', PP + ':R6Tree.nearestNeighbors',
+                      PP + ':PathNode.setParent')
+    budget = 1
+    knn = 2
+    replayable = False      # callbacks and the R-tree are abstract: there is no native counterpart of a counter-model
+    max_paths = 3000
+    timeout = 20.0
+
+    @property
+    def shape_bound(self):
+        return 'iteration budget %d, nearest-neighbour limit %d' % (self.budget, self.knn)
+
+    def prepare(self):
+        def inv(L):
+            me = L['self']
+            st = me.__dict__['_pyvc_state']
+            d = L['dist']
+            out = [('nearest is a non-empty list of inserted nodes', T.TRUE if (len(L['nearest']) >= 1 and
+                    all(any(it.object is n for n in st['inserted']) for it in L['nearest'])) else T.FALSE),
+                   ('dist is the distance of the sample to its nearest node',
+                    T.eq(d, st['dist'](L['new_node'], L['nearest'][0].object)) if len(L['nearest']) >= 1 else T.FALSE),
+                   ('the sample is a fresh parentless node', T.TRUE if (L['new_node'].getParent() is None and
+                    all(L['new_node'] is not n for n in st['inserted'])) else T.FALSE)]
+            return out
+
+        def havoc(nm, old, c):
+            st = T.ctx().contract_state
+            if nm == 'new_node':
+                return st['gen']()
+            if nm == 'nearest':
+                return st['nearest1']()
+            if nm == 'dist':
+                return NotImplemented
+            return NotImplemented
+        loops.register(PP, 'RRTStar.generalGenerateTree', 0, loops.LoopSpec(inv, havoc, name='rejection sampling'))
+
+    def setup(self, g):
+        g.real('unused', lo=0.0, hi=1.0)
+        return (), {}
+
+    def run(self, g, fn, args, kwargs):
+        pp = g.module(PP)
+        tmm = g.module(TM)
+        ctx = g.ctx if g.symbolic else None
+        if not g.symbolic:
+            raise NotImplementedError('replay of C16 contracts is not implemented')
+        planner = pp.RRTStar(tmm.tm())
+        planner.iterations = self.budget
+        planner.nearest_neighbors_limit = self.knn
+        planner.minimum_distance = g.ctx.fresh_real('dmin')
+        planner.maximum_distance = g.ctx.fresh_real('dmax')
+        root = planner.r6_tree_graph.idx.items[0][2]
+        st = dict(inserted=[root], gen_count=[0], samples=[], dist_calls=[], coll={}, examined={})
+
+        def gen():
+            st['gen_count'][0] += 1
+            n = pp.PathNode(tmm.tm())
+            n.__dict__['_pyvc_id'] = st['gen_count'][0]
+            st['samples'].append(n)
+            return n
+
+        def ident(n):
+            return n.__dict__.get('_pyvc_id', 0)
+
+        def dist_nodes(a, b):
+            return T.uf('dist', T.SR.const(min(ident(a), ident(b))), T.SR.const(max(ident(a), ident(b))))
+
+        pos_owner = {}
+
+        def owner(pos):
+            for n in st['inserted'] + st['samples']:
+                if n.getPosition() is pos:
+                    return n
+            raise KeyError('position of an unknown node')
+
+        def distance(p1, p2):
+            d = dist_nodes(owner(p1), owner(p2))
+            g.ctx.assume(T.le(0, d), tag='A7: distances are non-negative')
+            return d
+
+        def collision(a, b):
+            key = (min(ident(a), ident(b)), max(ident(a), ident(b)))
+            if key not in st['coll']:
+                st['coll'][key] = T.bvar('collides_%d_%d_%d' % (key[0], key[1], g.ctx.fresh_id('coll')))
+            return st['coll'][key]
+
+        def choose_subset(k):
+            """A6: any non-empty list of at most k distinct inserted nodes, in any order (explored exhaustively)"""
+            pool = list(st['inserted'])
+            out = []
+            for round_ in range(min(k, len(pool))):
+                remaining = [n for n in pool if all(n is not m for m in out)]
+                picked = None
+                for idx, n in enumerate(remaining):
+                    last = idx == len(remaining) - 1
+                    if last and round_ == 0:
+                        picked = n
+                        break
+                    if bool(T.bvar('rtree_pick_%d' % g.ctx.fresh_id('pick'))):
+                        picked = n
+                        break
+                if picked is None:
+                    break
+                out.append(picked)
+                if round_ + 1 < min(k, len(pool)) and not bool(T.bvar('rtree_more_%d' % g.ctx.fresh_id('more'))):
+                    break
+            return [pp.index.Item(n) if hasattr(pp.index, 'Item') else n for n in out]
+
+        st['gen'] = gen
+        st['dist'] = dist_nodes
+        st['nearest1'] = lambda: choose_subset(1)
+        g.ctx.contract_state = st
+        planner.__dict__['_pyvc_state'] = st
+
+        def hook(index, coords, num, objects):
+            items = choose_subset(num)
+            if num > 1:
+                st['examined'][len(st['inserted'])] = [it.object for it in items]
+            return items
+        g.ctx.rtree_nearest_hook = hook
+        # keep the ghost set in step with the real insertions
+        real_place = planner.r6_tree_graph.place
+
+        def place(node):
+            real_place(node)
+            st['inserted'].append(node)
+        planner.r6_tree_graph.place = place
+        planner.generalGenerateTree(gen, distance, collision)
+        return planner, st, root, dist_nodes, collision
+
+    def post(self, g, out, args, kwargs):
+        planner, st, root, dist_nodes, collision = out
+        nodes = st['inserted']
+        g.holds('the tree holds one node per iteration plus the root', len(nodes) == self.budget + 1 and
+                planner.r6_tree_graph.getCount() == self.budget + 1)
+        g.holds('the root has no parent', root.getParent() is None)
+        for k, n in enumerate(nodes[1:], start=1):
+            p = n.getParent()
+            rank_ok = p is not None and any(p is m for m in nodes[:k])
+            g.holds('node %d: its parent was inserted earlier (rooted, acyclic)' % k, rank_ok)
+            if not rank_ok:
+                continue
+            g.eq('node %d: cost = parent cost + distance to parent' % k, n.getCost(), p.getCost() + dist_nodes(n, p))
+            g.holds('node %d: the parent link is collision-free' % k, T.snot(T.SB_lift(collision(n, p))))
+            ex = st['examined'].get(k, [])
+            for c in ex:
+                better = T.sand(T.lt(dist_nodes(n, c) + c.getCost(), n.getCost()), T.snot(T.SB_lift(collision(n, c))))
+                g.holds('node %d: no examined collision-free candidate is cheaper than its parent' % k, T.snot(better))
+
+
+register(type('Tree_budget1', (_Tree,), dict(budget=1, knn=2)))
+register(type('Tree_budget2', (_Tree,), dict(budget=2, knn=2)))
+register(type('Tree_budget3', (_Tree,), dict(budget=3, knn=3, tier='thorough', max_paths=20000)))
